@@ -41,7 +41,125 @@ fn machine(bytes: &[u8], layout: usize, regs: usize) -> Axecutor {
     } else {
         ax.verif_set_rflags(0x8d5);
     }
+    // segment bases are register state too: zero, small, and large enough that offset + base
+    // passes 2^64 (negative TLS offsets are the ordinary case of that)
+    match regs {
+        1 => {
+            ax.write_fs(0x3000);
+            ax.write_gs(0x0000_7000_0000_0000);
+        }
+        3 => {
+            ax.write_fs(0x0000_7FFF_FFFF_F000);
+            ax.write_gs(0xFFFF_FFFF_FFFF_F000);
+        }
+        _ => {}
+    }
     ax
+}
+
+/// (c) the `syscall` instruction with every built-in handler installed: the handlers take
+/// their arguments from guest registers, so extreme argument values are register states too.
+const SYS_NUMS: [u64; 9] = [0, 1, 12, 22, 60, 158, 231, 2, u64::MAX];
+fn sys_args(data: u64) -> [u64; 12] {
+    [
+        0,
+        1,
+        8,
+        data + 0x10,
+        data + 0xF9,
+        data + 0x100,
+        0x1001,
+        0x1002,
+        1 << 40,
+        1 << 63,
+        0xFFFF_FFFF_FFFF_FFF8,
+        u64::MAX,
+    ]
+}
+
+/// history 0: fresh machine; 1: a pipe holding three bytes and the heap exist (heap below the
+/// code, so it can only grow until it meets the code); 2: as 1, but with the code at 0x1000 so
+/// that the heap is the highest area below an area on the last page of the address space
+fn sys_machine(history: usize) -> (Axecutor, [u64; 2], u64) {
+    use ax_x86::helpers::syscalls::Syscall;
+    // syscall x 4 ; nop
+    let code = [0x0F, 0x05, 0x0F, 0x05, 0x0F, 0x05, 0x0F, 0x05, 0x90];
+    let (code_at, data, stk) = if history == 2 { (0x1000, 0x2000, 0x3000) } else { (CODE_AT, DATA, STK) };
+    let mut ax = Axecutor::new(&code, code_at, code_at).unwrap();
+    ax.mem_init_area(data, vec![0x11; 0x100]).unwrap();
+    ax.mem_init_area(stk, vec![0x22; 0x100]).unwrap();
+    if history == 2 {
+        ax.mem_init_area(0u64.wrapping_sub(0x100), vec![0x44; 0x100]).unwrap();
+    }
+    ax.reg_write_64(SR::RSP, stk + 0x80).unwrap();
+    ax.handle_syscalls(vec![Syscall::Brk, Syscall::Pipe, Syscall::Exit, Syscall::ArchPrctl]).unwrap();
+    let mut fds = [3u64, 4u64];
+    if history >= 1 {
+        for (rax, rdi, rsi, rdx) in [(22u64, data + 0x20, 0u64, 0u64), (1, u64::MAX, data, 3), (12, 0, 0, 0)] {
+            ax.reg_write_64(SR::RAX, rax).unwrap();
+            let rdi = if rdi == u64::MAX { ax.mem_read_64(data + 0x28).unwrap() } else { rdi };
+            ax.reg_write_64(SR::RDI, rdi).unwrap();
+            ax.reg_write_64(SR::RSI, rsi).unwrap();
+            ax.reg_write_64(SR::RDX, rdx).unwrap();
+            let _ = crate::emu::step(&mut ax);
+        }
+        fds = [ax.mem_read_64(data + 0x20).unwrap(), ax.mem_read_64(data + 0x28).unwrap()];
+    }
+    (ax, fds, data)
+}
+
+fn sys_sweep(e: &mut EnumCtx) {
+    for history in 0..3usize {
+        for rax in SYS_NUMS {
+            for a in 0..12 + 2 {
+                for b in 0..12 {
+                    for c in 0..12 {
+                        if !e.next() {
+                            continue;
+                        }
+                        let (mut ax, fds, data) = sys_machine(history);
+                        let args = sys_args(data);
+                        // first argument: the alphabet plus the two live descriptors
+                        let rdi = if a < 12 { args[a] } else { fds[a - 12] };
+                        let (rsi, rdx) = (args[b], args[c]);
+                        e.describe("syscall", &format!("history {history} rax={rax:#x} rdi={rdi:#x} rsi={rsi:#x} rdx={rdx:#x}"));
+                        ax.reg_write_64(SR::RAX, rax).unwrap();
+                        ax.reg_write_64(SR::RDI, rdi).unwrap();
+                        ax.reg_write_64(SR::RSI, rsi).unwrap();
+                        ax.reg_write_64(SR::RDX, rdx).unwrap();
+                        let out = crate::emu::step(&mut ax);
+                        e.count("transitions", 1);
+                        e.count("syscall_cases", 1);
+                        let mut f = crate::common::Fp::new();
+                        f.u64(history as u64);
+                        f.u64(rax);
+                        f.u64(a as u64);
+                        f.u64(rsi);
+                        f.u64(rdx);
+                        e.state(f.0);
+                        match &out {
+                            StepOut::Ok(_) => e.count("ok", 1),
+                            StepOut::Err(_) => e.count("err", 1),
+                            StepOut::Panic(p) => {
+                                e.count("panic", 1);
+                                let key = format!("syscall|panic@{}", p.tag());
+                                e.finding(
+                                    &key,
+                                    || format!("`syscall` with the built-in handlers installed, rax={rax:#x} rdi={rdi:#x} rsi={rsi:#x} rdx={rdx:#x} (history {history}) panicked at {}: {}", p.loc, crate::emu::first_line(&p.msg)),
+                                    || json!({"syscall": true, "history": history, "rax": rax, "rdi": rdi, "rsi": rsi, "rdx": rdx}),
+                                );
+                            }
+                        }
+                        f.u64(out.is_ok() as u64);
+                        if let StepOut::Ok(_) = out {
+                            f.u64(ax.reg_read_64(SR::RAX).unwrap());
+                        }
+                        e.outcome(f.0);
+                    }
+                }
+            }
+        }
+    }
 }
 
 fn one(e: &mut EnumCtx, bytes: &[u8]) {
@@ -78,6 +196,7 @@ fn one(e: &mut EnumCtx, bytes: &[u8]) {
 
 fn gen(thorough: bool) -> impl Fn(&mut EnumCtx) + Sync {
     move |e: &mut EnumCtx| {
+        sys_sweep(e);
         let fillers: [[u8; 14]; 4] = [[0x00; 14], [0xFF; 14], [0x24, 0x25, 0x10, 0x20, 0x30, 0x40, 0x50, 0x60, 0x70, 0x80, 0x90, 0xA0, 0xB0, 0xC0], [0x90; 14]];
         let mut buf: Vec<u8> = Vec::with_capacity(24);
         // (a) all 1- and 2-byte prefixes (thorough: all 3-byte prefixes)
@@ -191,7 +310,7 @@ pub fn run(tier: Tier) -> i32 {
         run.findings.merge(f);
         run.cov("devlike_profile_run", summary);
     }
-    enum_evidence(&mut run, &out, "one case = a byte string used as code: (a) every 1- and 2-byte prefix x 4 fillers (thorough: every 3-byte prefix x 2 fillers), (b) legacy prefix menu x REX menu x every 1-byte and 0F-escaped opcode x every ModRM x SIB menu; each stepped in 5 (layout, register state) combinations: code only / code+data+stack with all registers pointing into mapped memory, code+data+stack with distinct filler and all flags set, and areas at both ends of the address space with all registers 0 / all registers 2^64-8, under catch_unwind, an allocation guard and a hang watchdog; states = distinct 8-byte code prefixes; distinct_nontrivial = distinct (first 8 bytes, outcome class and RIP of the 5 runs)");
+    enum_evidence(&mut run, &out, "one case = a byte string used as code: (a) every 1- and 2-byte prefix x 4 fillers (thorough: every 3-byte prefix x 2 fillers), (b) legacy prefix menu x REX menu x every 1-byte and 0F-escaped opcode x every ModRM x SIB menu; each stepped in 5 (layout, register state) combinations: code only / code+data+stack with all registers pointing into mapped memory, code+data+stack with distinct filler and all flags set, and areas at both ends of the address space with all registers 0 / all registers 2^64-8, under catch_unwind, an allocation guard and a hang watchdog; FS/GS bases are part of the register state (0 / small / large enough to wrap); (c) the `syscall` instruction with the built-in brk/pipe/exit/arch_prctl handlers installed x 9 syscall numbers x (12 boundary values + the live pipe descriptors) x 12 x 12 argument values, on a fresh machine, on one where a pipe holding data and the heap exist, and on one where in addition the heap is the highest area below an area on the last page of the address space; states = distinct 8-byte code prefixes; distinct_nontrivial = distinct (first 8 bytes, outcome class and RIP of the 5 runs)");
     run.guard("cases", out.cases >= 1_000_000 || out.capped, format!("{} byte strings", out.cases));
     let okc = out.counters.get("ok").cloned().unwrap_or(0);
     let errc = out.counters.get("err").cloned().unwrap_or(0);
